@@ -25,12 +25,12 @@ def describe(c):
 
 
 def run(ctx):
-    d0 = ctx.harness("c13crash", args=["-n", 1 if ctx.quick else 6])
+    d0 = ctx.harness("c13crash", args=["-n", 1 if ctx.quick else 4])
     if d0 is not None:
         res0 = vlib.eval_cases(d0)
         ctx.rules.append("crash family: 8 scripted taker flows (out_sender / in_receiver on lbtc and btc), one scenario per (step, effect): the process dies before that store write / service call, the real bbolt file is reopened, RecoverSwaps runs, the remaining events of the flow are replayed and a final restart follows; the tip moves between all entry points")
         ctx.absorb(res0, "c13crash", signature=lambda c: "crash:%s:%s" % (c.get("role"), c.get("chain")), describe=describe)
-    n = 80 if ctx.quick else 1200
+    n = 80 if ctx.quick else 800
     d = ctx.harness("fsm", args=["-n", n, "-focus", "C13"] + MON)
     if d is None:
         return
@@ -40,7 +40,7 @@ def run(ctx):
 
 
 def search(ctx):
-    d = ctx.harness("fsm", outdir=ctx.work + "/search", args=["-n", 600, "-focus", "C13"] + MON)
+    d = ctx.harness("fsm", outdir=ctx.work + "/search", args=["-n", 300, "-focus", "C13"] + MON)
     if d is None:
         return
     res = vlib.eval_cases(d)
